@@ -33,12 +33,21 @@ C0 == { <<10>>, <<13>>, <<12>>, <<8>>, <<9>>, <<127>> }
 Printable == { <<65>>, <<32>> }
 Lrm == { Csi(P2(a, b), <<115>>) : a \in {1, 2}, b \in {1, W, W + 1} } \cup { Csi(P2(k, n), <<61, 109>>) : k \in 0..3, n \in {0, 1, 2} }
 SlSr == { Csi(P1(n), <<32, 64>>) : n \in {1, 2} } \cup { Csi(P1(n), <<32, 65>>) : n \in {1, 2} }
-Rect == { Csi(<<54, 53, 59>> \o P2(1, 1) \o <<59>> \o P2(H + 1, W + 1), <<36, 120>>), Csi(P2(1, 1) \o <<59>> \o P2(2, 2), <<36, 122>>), Csi(P2(2, 2) \o <<59>> \o P2(1, 1), <<36, 123>>) }
+Rect == { Csi(<<53, 53, 50, 57, 54, 59>> \o P2(1, 1) \o <<59>> \o P2(2, 2), <<36, 120>>), Csi(<<49, 49, 49, 52, 49, 49, 50, 59>> \o P2(1, 1) \o <<59>> \o P2(1, 1), <<36, 120>>),
+          Csi(<<54, 53, 59>> \o P2(1, 1) \o <<59>> \o P2(H + 1, W + 1), <<36, 120>>), Csi(P2(1, 1) \o <<59>> \o P2(2, 2), <<36, 122>>), Csi(P2(2, 2) \o <<59>> \o P2(1, 1), <<36, 123>>) }
 Sgr1 == { Csi(<<>>, <<109>>), Csi(<<52, 49>>, <<109>>), Csi(<<53>>, <<109>>), <<27, 91, 63, 51, 51, 104>> }
 Avt == { <<22, k>> : k \in 2..6 } \cup { <<22, 8, a, b>> : a \in {0, 1, W + 1}, b \in {0, H + 1} } \cup { <<25, 65, n>> : n \in {0, 2, W + 1} } \cup { <<22, 1, 23>>, <<12>> }
 CtrlATok == { <<1, k>> : k \in {76, 39, 74, 62, 60, 124, 93, 72, 78, 130} }
 
-Toks == CASE Slice = "cursor"  -> OneParam \cup NoParam \cup Cup \cup C0 \cup Printable \cup EscTok \cup Modes
+Big == {<<54, 53, 53, 51, 54>>, <<57, 57, 57, 57, 57, 57, 57, 57, 57, 57, 57>>}      \* "65536", "99999999999" (saturates at 2147483599)
+Huge == { Csi(b, <<f>>) : b \in Big, f \in {64, 80, 76, 77, 83, 84, 98, 89, 90, 88, 65, 66, 67, 68, 69, 70, 71, 100, 101, 97, 114} }
+        \cup { Csi(b, <<32, 64>>) : b \in Big } \cup { Csi(b, <<32, 65>>) : b \in Big } \cup { Csi(<<49, 59>> \o b, <<114>>) : b \in Big } \cup { Csi(<<49, 59>> \o b, <<115>>) : b \in Big }
+        \cup { <<27, 80, 48, 59, 48, 59, 48, 33, 122, 65, 27, 91, 48, 42, 122, 27, 91, 48, 42, 122, 27, 92>>,          \* DECDMAC 0 = "A CSI 0*z CSI 0*z" (invokes itself twice)
+                 <<27, 80, 49, 59, 48, 59, 48, 33, 122, 27, 91, 48, 42, 122, 27, 92>>, <<27, 91, 48, 42, 122>>, <<27, 91, 49, 42, 122>>,
+                 <<27, 80, 50, 59, 48, 59, 49, 33, 122, 33, 57, 57, 57, 57, 57, 57, 57, 59, 52, 49, 59, 27, 92>>, <<27, 91, 50, 42, 122>>,        \* hex macro with repeat group 9999999 x "A"
+                 <<27, 91, 63, 54, 57, 104>>, <<10>>, <<65>> }
+Toks == CASE Slice = "huge"    -> Huge
+          [] Slice = "cursor"  -> OneParam \cup NoParam \cup Cup \cup C0 \cup Printable \cup EscTok \cup Modes
           [] Slice = "margins" -> Stbm \cup Lrm \cup SlSr \cup { Csi(P1(n), <<f>>) : n \in {1, 2}, f \in {65, 66, 83, 84, 76, 77} } \cup { <<10>>, <<27, 68>>, <<27, 77>>, <<27, 69>>, <<65>>, <<12>>, <<27, 91, 63, 54, 57, 104>> } \cup Cup
           [] Slice = "content" -> Printable \cup Rect \cup Sgr1 \cup C0 \cup Modes \cup { Csi(P1(n), <<f>>) : n \in {1, 2}, f \in {64, 80, 88, 98, 97, 39, 71} } \cup { Csi(<<>>, <<f>>) : f \in {74, 75, 64} }
           [] Slice = "avatar"  -> Avt \cup Printable \cup { <<10>>, <<13>> } \cup Cup
@@ -56,6 +65,17 @@ Spec == Init /\ [][Next]_vars
 InScreen == CaretInScreen(st)
 Sane == /\ st.tw >= 1 /\ st.th >= 1 /\ st.bh >= st.th /\ st.lh >= 1
         /\ \A i \in 1..Len(st.rows) : \A j \in 1..Len(st.rows[i]) : Scalar(st.rows[i][j][1])
+\* C03 on the model: one token never grows the row table by more than a screenful (+1) of rows, a row by more than a screen
+\* width (+ the token's own characters), or a macro beyond the macro space - whatever numbers the token carries
+MacroBytes(s) == LET RECURSIVE Sum(_)
+                     Sum(i) == IF i > Len(s.macros) THEN 0 ELSE Len(s.macros[i][2]) + Sum(i + 1)
+                 IN Sum(1)
+RowMax(s) == LET RECURSIVE M(_)
+                 M(i) == IF i > Len(s.rows) THEN 0 ELSE Max(Len(s.rows[i]), M(i + 1))
+             IN M(1)
+GrowthBounded == [][ /\ Len(st'.rows) <= Len(st.rows) + st.tw * st.th + st.th + 2
+                     /\ RowMax(st') <= Max(RowMax(st), st.lw) + st.tw * st.th + 2
+                     /\ MacroBytes(st') <= 64 * 32767 ]_vars
 Bounded == st.bh <= H + 2 /\ Len(st.rows) <= H + 3 /\ (\A i \in 1..Len(st.rows) : Len(st.rows[i]) <= W + 2) /\ Len(st.pal) <= 17
 View == st
 \* ---- generator: coarse classes of states, one shortest witness each
